@@ -26,7 +26,7 @@ extern "C" void harness_main()
 #ifndef NO_CORRUPTION
   int pos = symx_fork("pos", len);
   uint8_t ch = symx_u8("ch");
-  symx_assume(ch == 'x' || ch == '7' || ch == ' ' || ch == '\n' || ch == '#' || ch == ',' || ch == '.' || ch == ':' || ch == '"' || ch == '(' || ch == ';' || ch == '$');
+  symx_assume(ch == 'x' || ch == '7' || ch == ' ' || ch == '\n' || ch == '#' || ch == ',' || ch == '.' || ch == ':' || ch == '"' || ch == '(' || ch == ';' || ch == '$' || ch == '/' || ch == '*');
   symx_assume(ch != (uint8_t)prog[pos]);
   prog[pos] = (char)ch;
   symx_note("pos", pos);
